@@ -339,9 +339,23 @@ def gen_plan(rng):
 
 
 # ============================================================================== driving
-def drain(world, oracle, rng, policy='random', max_steps=500):
+def early_point(snap):
+    """a rerun target exists while the root is still RUNNING: an ERROR task of a sub-workflow execution that
+    ended in ERROR and has already been reported to its parent task (parent task ERROR), with another branch of
+    an enclosing workflow still in progress"""
+    if not snap['wfs'] or snap['wfs'][0]['state'] != 'RUNNING':
+        return []
+    tstate = {t['ord']: t['state'] for t in snap['tasks']}
+    ok_wfs = {w['ord'] for w in snap['wfs'] if w['state'] == 'ERROR' and w['parent_task'] is not None
+              and tstate.get(w['parent_task']) == 'ERROR'}
+    return [t for t in snap['tasks'] if t['state'] == 'ERROR' and t['wf'] in ok_wfs]
+
+
+def drain(world, oracle, rng, policy='random', max_steps=500, stop=None):
     steps = 0
     while steps < max_steps:
+        if stop is not None and stop(world.snapshot()):
+            return steps, False
         en = [e for e in world.enabled()
               if not (e[0] == 'job' and e[1].func_name.endswith('_check_and_fix_integrity'))]
         if not en:
@@ -512,20 +526,26 @@ def run_case(ctx, case, drv, want_reference=True, guard_checks=True):
     orc = Oracle(table)
     world.create_workflows(y)
     world.start_workflow('wf', {})
-    steps, exh = drain(world, orc, srng, case.get('policy', 'random'))
+    steps, exh = drain(world, orc, srng, case.get('policy', 'random'),
+                       stop=early_point if case.get('early') else None)
     info = {'triggers': set(), 'detached_error': False}
     bases = {}            # (task, idx) -> k of the first execution that counts for the reference run
     ref_ok = True
     applied = []
     for rnd in case['plan']:
         s0 = world.snapshot()
-        if exh or not s0['wfs'] or s0['wfs'][0]['state'] != 'ERROR':
+        early = early_point(s0) if case.get('early') else []
+        if exh or not s0['wfs'] or (s0['wfs'][0]['state'] != 'ERROR' and not early):
             break
         prng = random.Random(rnd['seed'])
         # only tasks of the CURRENT execution tree: a sub-workflow execution that was superseded by a reset
         # rerun of its parent task is abandoned (commands on it are outside the reference notion)
         cur = current_wfs(s0)
         err_tasks = [t for t in s0['tasks'] if t['state'] == 'ERROR' and t['wf'] in cur]
+        if early:
+            # the command arrives while other branches of the enclosing workflows are still in progress
+            err_tasks = [t for t in err_tasks if t['ord'] in {e['ord'] for e in early}]
+            res.feats.add('early')
         cls = {'cause': [], 'parent': [], 'joinfail': []}
         for t in err_tasks:
             has_act = any(a['task'] == t['ord'] for a in s0['actions'])
@@ -597,6 +617,7 @@ def run_case(ctx, case, drv, want_reference=True, guard_checks=True):
         aw0 = abstract(s0, sidx)
         m1 = drv.call('rerun.op', {'world': aw0, 'task': tpos, 'reset': reset, 'skip': skip})
         n_err = len(world.errors)
+        seq0 = world._seq
         world.op('rerun_workflow', tgt['id'], reset=reset, skip=skip)
         res.ops += 1
         applied.append({'task': tgt['name'], 'op': rnd['op'], 'reset': reset, 'class': kind})
@@ -638,7 +659,7 @@ def run_case(ctx, case, drv, want_reference=True, guard_checks=True):
         if sorted([[c[0], c[1]] for c in mw1['created']]) != created:
             res.disagreements.append(('op-created', mw1['created'], created))
         # message sent
-        pend = [p for p in world.pending if p.kind == 'posttx']
+        pend = [p for p in world.pending if p.kind == 'posttx' and p.seq > seq0]
         if bool(mw1['starts']) != (len(pend) >= 1 and not skip):
             res.disagreements.append(('op-starts', mw1['starts'], s1['pending']))
         # ---- monitors after the command
@@ -648,7 +669,7 @@ def run_case(ctx, case, drv, want_reference=True, guard_checks=True):
             # deliver exactly the start_task of this command: the post-commit operation, then the message
             for _ in range(2):
                 en = world.enabled()
-                mine = [e for e in en if e[0] == 'p' and (e[1].kind == 'posttx' or (
+                mine = [e for e in en if e[0] == 'p' and ((e[1].kind == 'posttx' and e[1].seq > seq0) or (
                     e[1].kind == 'rpc' and e[1].data['method'] == 'start_task'
                     and e[1].data['kwargs'].get('task_ex_id') == tgt['id']))]
                 if not mine:
@@ -956,7 +977,8 @@ def gen_case(rng):
     nested = len(prog['wfs']) > 1
     return {'prog': prog, 'table': table_to_json(table), 'plan': gen_plan(rng), 'seed': rng.getrandbits(30),
             'policy': rng.choice(['random', 'random', 'fifo', 'lifo']),
-            'slow_dispatcher': nested and rng.random() < 0.12}
+            'slow_dispatcher': nested and rng.random() < 0.12,
+            'early': nested and rng.random() < 0.4}
 
 
 def report(ctx, case, res):
